@@ -168,3 +168,22 @@ Example C14_reload_example :
   = [Ok [([97], [([107], [49])])]; Ok [([97], [([107], [50])])]].
 Proof. exact ex_reload. Qed.
 Print Assumptions C14_reload_example.
+
+(* ------------------------------------------------------------------ the command-line layer *)
+From Config Require Import Override Proofs_Override.
+
+(* "-o section/key=value" is split at the first "/" and then the first "=": a value containing
+   "=" or "/" stays the value of that key.  (corr:override ties parse_override to the real
+   commands.config_override_type on every -o text of a run.) *)
+Theorem C14_override_parse :
+  forall sec k v,
+    ~ In SLASH sec -> ~ In EQC k ->
+    parse_override (sec ++ SLASH :: k ++ EQC :: v) = Some (strip sec, strip k, strip v).
+Proof. exact parse_override_spec. Qed.
+Print Assumptions C14_override_parse.
+
+Example C14_override_example :
+  parse_override [97; 47; 111; 61; 120; 32; 100; 61; 104; 119; 58; 49]
+  = Some ([97], [111], [120; 32; 100; 61; 104; 119; 58; 49]).
+Proof. exact parse_override_example. Qed.
+Print Assumptions C14_override_example.
